@@ -9,7 +9,7 @@
    (32 on an AVR, 64 on the hosted mock core) and so is the start clock - the theorems hold across the
    roll-over.  Contact bounce is outside the model (the "sampled signal" is what digitalRead returned). *)
 From Coq Require Import ZArith QArith List Bool Arith.
-From RV Require Import Device.DButton Device.DPot Device.DUltra Proofs.InputsP.
+From RV Require Import Base.Wire Device.DButton Device.DPot Device.DUltra Proofs.InputsP Wire.C15W Proofs.SketchP.
 Import ListNotations.
 
 (* ---------------------------------------------------------------- Button *)
@@ -150,6 +150,74 @@ Example C15_looptop_nonvacuous :
   map clicks (dev_run BeforeLoop (Some 0%nat) true [(true, 1%nat); (true, 1%nat)]) = [0; 0]%nat.
 Proof. vm_compute. repeat split; reflexivity. Qed.
 Print Assumptions C15_looptop_nonvacuous.
+
+(* ---- the sample in every syntactic position.  Wire/C15W.v interprets whole sketches: the polls of all buttons at the
+   head of loop(), then a loop body given as a statement tree in which is_pressed(), read() and measure_distance() occur
+   as print arguments, in assignments, arithmetic, call arguments, conditional expressions, if / elif / nested-while /
+   for-range conditions, under not / and / or, as sleep() arguments, directly or inside helper functions. *)
+
+(* no statement, whatever its shape and depth, touches the cached samples or reads a button pin *)
+Theorem C15_body_never_samples :
+  forall (fuel : nat) (sk : sketch) (g cnt : Z) (st : sstate) (stmt : wv),
+  s_btn (fst (exec fuel sk g cnt st stmt)) = s_btn st /\ no_dr (snd (exec fuel sk g cnt st stmt)).
+Proof. exact exec_ok. Qed.
+Print Assumptions C15_body_never_samples.
+
+(* nor does any expression or condition: every is_pressed() inside it is [do_pressed] on that same cached state *)
+Theorem C15_expressions_never_sample :
+  forall (fuel : nat) (sk : sketch) (g cnt : Z) (st : sstate) (e : wv),
+  (s_btn (fst (fst (eval_i fuel sk g cnt st e))) = s_btn st /\ no_dr (snd (fst (eval_i fuel sk g cnt st e)))) /\
+  (s_btn (fst (fst (eval_c fuel sk g cnt st e))) = s_btn st /\ no_dr (snd (fst (eval_c fuel sk g cnt st e)))) /\
+  (s_btn (fst (fst (eval_f fuel sk g cnt st e))) = s_btn st /\ no_dr (snd (fst (eval_f fuel sk g cnt st e)))).
+Proof.
+  exact (fun fuel sk g cnt st e =>
+           conj (proj1 (eval_ic_ok fuel) sk g cnt st e)
+                (conj (proj2 (eval_ic_ok fuel) sk g cnt st e) (eval_f_ok fuel sk g cnt st e))).
+Qed.
+Print Assumptions C15_expressions_never_sample.
+
+(* a whole pass: the digitalRead events of the pass are exactly one per button (declaration order), each returning
+   that pass's sample, and at the end of the pass (hence, by the two theorems above, at every point of the body) the
+   value is_pressed() returns is that sample *)
+Theorem C15_one_sample_per_pass_every_position :
+  forall (sk : sketch) (k : nat) (st : sstate),
+  length (s_btn st) = length (k_buttons sk) ->
+  filter is_dr (snd (run_pass sk k st)) =
+    map (fun bd => ev [1; bd_pin bd; boolz (sample_of bd k)]%Z) (k_buttons sk) /\
+  map b_value (s_btn (fst (run_pass sk k st))) = map (fun bd => sample_of bd k) (k_buttons sk).
+Proof. exact run_pass_ok. Qed.
+Print Assumptions C15_one_sample_per_pass_every_position.
+
+(* and so for every pass of a run of any length *)
+Theorem C15_one_sample_per_pass_whole_run :
+  forall (sk : sketch) (n k : nat) (st : sstate),
+  length (s_btn st) = length (k_buttons sk) ->
+  map pass_reads (run_passes sk n k st) =
+  map (fun j => map (fun bd => ev [1; bd_pin bd; boolz (sample_of bd j)]%Z) (k_buttons sk)) (seq k n).
+Proof. exact run_passes_ok. Qed.
+Print Assumptions C15_one_sample_per_pass_whole_run.
+
+(* non-vacuity: one button (pin 7, samples: setup 0, then 1 1 0), body
+     n = 0; while b.is_pressed() and n < 2: n = n + 1;  mon.write(n)
+     if not b.is_pressed(): mon.write(3)  else: mon.write(b.is_pressed() + 4)
+     for i in range(b.is_pressed() + 1): mon.write(i)
+   pass 0 (sample 1, rising edge): read, click, 2, 5, 0, 1;  pass 1 (held): read, 2, 5, 0, 1;  pass 2 (released): read, 0, 3, 0 *)
+Example C15_positions_nonvacuous :
+  let pressed := WL [WI 1; WI 0]%Z in
+  let sk := {| k_w := 32; k_drifts := []; k_passgaps := [];
+               k_buttons := [{| bd_pin := 7; bd_place := BeforeLoop; bd_h := Some 0%nat; bd_samples := [0; 1; 1; 0]%Z |}];
+               k_pots := []; k_ultras := []; k_gate := None;
+               k_body := [ WL [WI 33; WL [WI 10; pressed]; WI 2; WI 0; WL []];
+                           WL [WI 32; WL [WL [WL [WI 11; WL [WI 10; pressed]]; WL [WL [WI 30; WL [WI 0; WI 3]]]]];
+                                      WL [WL [WI 30; WL [WI 5; WI 0; pressed; WL [WI 0; WI 4]]]]];
+                           WL [WI 34; WL [WI 5; WI 0; pressed; WL [WI 0; WI 1]]; WL [WL [WI 30; WL [WI 4]]]] ]%Z |} in
+  run_sketch sk 3 0 =
+  WL [WI 0; WL [ev [1; 7; 0]];
+      WL [WL [ev [1; 7; 1]; ev [2; 0]; ev [3; 2]; ev [3; 5]; ev [3; 0]; ev [3; 1]];
+          WL [ev [1; 7; 1]; ev [3; 2]; ev [3; 5]; ev [3; 0]; ev [3; 1]];
+          WL [ev [1; 7; 0]; ev [3; 0]; ev [3; 3]; ev [3; 0]]]]%Z.
+Proof. vm_compute. reflexivity. Qed.
+Print Assumptions C15_positions_nonvacuous.
 
 (* ---------------------------------------------------------------- Potentiometer *)
 
